@@ -82,7 +82,8 @@ func newQPeer(cert tls.Certificate, n *wnet) *qpeer {
 				sc := q.plan
 				q.sess = append(q.sess, sessKeys{c2s, s2c})
 				s := len(q.sess)
-				wire := q.build(sc, s)
+				wire, off := q.build(sc, s)
+				stl := q.stall
 				last := &q.conns[len(q.conns)-1]
 				last.handshake, last.sess = true, s
 				q.mu.Unlock()
@@ -95,9 +96,27 @@ func newQPeer(cert tls.Certificate, n *wnet) *qpeer {
 						q.mu.Lock()
 						q.conns[len(q.conns)-1].reqSeen = true
 						q.mu.Unlock()
+						if off >= 0 {
+							// see (*peer).handle
+							if off > 0 {
+								st.Write(wire[:off])
+							}
+							early := stl.wait()
+							q.mu.Lock()
+							cr := &q.conns[len(q.conns)-1]
+							cr.reached, cr.early = true, early
+							if early {
+								cr.nlate = len(sc.Recs) - sc.Stall
+							}
+							q.mu.Unlock()
+							wire = wire[off:]
+						}
 						if len(wire) > 0 {
 							st.Write(wire)
 						}
+						q.mu.Lock()
+						q.conns[len(q.conns)-1].fin = time.Now()
+						q.mu.Unlock()
 					}
 					st.Close()
 				}
@@ -174,6 +193,7 @@ func (q *qpeer) runHistory(w *worker, ci int, h []script, seed int64) []event {
 	for k, op := range h {
 		e := blank()
 		e.K = k
+		var late *event
 		switch op.Op {
 		case "store":
 			if !lastOK { // see runHistory in c20_test.go
@@ -198,15 +218,19 @@ func (q *qpeer) runHistory(w *worker, ci int, h []script, seed int64) []event {
 			q.mu.Unlock()
 			e.Ev, e.Via, e.Planned = "call", "fetch", sc
 			var o callObs
-			func() {
-				defer func() {
-					if r := recover(); r != nil {
-						o.ok, o.panicked, o.note = false, true, fmt.Sprint("FetchData panicked: ", r)
-					}
-				}()
-				d, err := f.FetchData(context.Background())
-				o.ok, o.ret = err == nil, d
-			}()
+			stalls := sc.StallW != "none"
+			var post0 ntske.Data
+			var label string
+			var retAt time.Time
+			arrivedLate := false
+			if stalls {
+				var done func()
+				o, label, retAt, done = fetchStalled(q.peer, f)
+				post0 = f.VerifData()
+				done()
+			} else {
+				o = fetchCtx(context.Background(), f)
+			}
 			h1 := q.hellos.Load()
 			// a handshake the peer let through ends in its handler
 			if h1 > h0 && sc.Alpn == "ntske/1" {
@@ -226,16 +250,34 @@ func (q *qpeer) runHistory(w *worker, ci int, h []script, seed int64) []event {
 			if len(q.conns) > c0 {
 				cr := q.conns[c0]
 				e.Served, e.ReqSeen = cr.sc, cr.reqSeen
+				e.Reached, e.Early, e.NLate = cr.reached, cr.early, cr.nlate
+				arrivedLate = stalls && cr.fin.After(retAt)
 			}
 			q.mu.Unlock()
 			e.Ok, e.Panicked, e.Note = o.ok, o.panicked, o.note
 			lastOK = o.ok
-			e.Post = q.project(f.VerifData())
+			if stalls {
+				e.Post = q.project(post0)
+			} else {
+				e.Post = q.project(f.VerifData())
+			}
 			if o.ok {
 				e.Ret = q.project(o.ret)
 			}
+			if stalls {
+				// see runHistory in c20_test.go
+				l := e
+				l.Ev, l.Via, l.Planned, l.Served, l.Ret = "late", "", noScript, noScript, zeroData
+				l.Ok, l.Dialed = false, 0
+				l.Unsettled = arrivedLate && !settle(label)
+				l.Post = q.project(f.VerifData())
+				late = &l
+			}
 		}
 		evs = append(evs, e)
+		if late != nil {
+			evs = append(evs, *late)
+		}
 	}
 	return evs
 }
@@ -295,10 +337,19 @@ func TestQUIC(t *testing.T) {
 		}(i)
 	}
 	wg.Wait()
-	calls, dials, oks := 0, 0, 0
+	calls, dials, oks, stalled, early, unsettled := 0, 0, 0, 0, 0, 0
 	for _, evs := range res {
 		for _, e := range evs {
 			out.Emit(e)
+			if e.Ev == "late" && e.Unsettled {
+				unsettled++
+			}
+			if e.Ev == "call" && e.Reached {
+				stalled++
+				if e.Early {
+					early++
+				}
+			}
 			if e.Ev == "call" {
 				calls++
 				dials += e.Dialed
@@ -308,7 +359,8 @@ func TestQUIC(t *testing.T) {
 			}
 		}
 	}
-	fmt.Printf("C20QUIC cases=%d calls=%d exchanges=%d ok=%d\n", len(cases), calls, dials, oks)
+	fmt.Printf("C20QUIC cases=%d calls=%d exchanges=%d ok=%d stalled=%d returned-early=%d unsettled=%d\n",
+		len(cases), calls, dials, oks, stalled, early, unsettled)
 	if calls == 0 {
 		t.Fatal("no call performed")
 	}
